@@ -20,6 +20,8 @@ BasePairs == MatchDet(dI.I)
 RedPairs == RunDet(dI.I, 1..dI.I.G, dI.keep, <<>>)
 TP(ps) == Cardinality({i \in 1..Len(ps) : dI.I.ok[ps[i][1]][ps[i][2]] >= dI.tau})
 DeleteNeverIncreasesRecall == TP(RedPairs) <= TP(BasePairs)
+\* the counter model whose violation is realised on the real Evaluator (distinct detection scores)
+DeleteNeverIncreasesRecallDistinctScores == IsInjective(dI.I.sc) => DeleteNeverIncreasesRecall
 Outranked(I, tau, bp, rp) ==
     \E i \in 1..Len(bp) : \E j \in 1..Len(rp) :
         /\ bp[i][1] = rp[j][1] /\ bp[i][2] # rp[j][2]
